@@ -72,9 +72,15 @@ class SearchSpace:
         self._param_grid: list[NDArray[np.float64]] = []
         self._space_size = 1
         for i in range(self.dims):
-            # the end-point tolerance absorbs rounding errors only: it must stay below one step,
-            # otherwise a very fine grid would continue beyond the upper bound
-            tolerance = min(0.0000001, 0.5 * parameters_precision[i])
+            # the end-point tolerance absorbs rounding errors only. It must be visible at the magnitude
+            # of the bounds (for bounds of 1e10 an absolute 1e-7 is lost in the sum and the upper bound
+            # itself would be dropped from the grid), and it must stay below one step (otherwise a very
+            # fine grid would continue beyond the upper bound)
+            magnitude = max(abs(parameters_bounds[0][i]), abs(parameters_bounds[1][i]))
+            tolerance = min(
+                max(0.0000001, 2 * np.spacing(magnitude)),
+                0.5 * parameters_precision[i],
+            )
             new_col: NDArray[np.float64] = np.arange(
                 parameters_bounds[0][i],
                 parameters_bounds[1][i] + tolerance,
